@@ -19,7 +19,7 @@ sed -i "s#path = \"/repo\"#path = \"$ISO/repo\"#" $ISO/verif/harness/vcheck/Carg
 sed -i "s#/verif/target#$ISO/verif/target#" $ISO/verif/harness/.cargo/config.toml
 export VERIF_FLAVOURS=${VERIF_FLAVOURS:-mon}
 for c in $checks; do
-  out=$(cd $ISO/verif && VERIF_SEED=${VERIF_SEED:-1} ./check $c quick 2>&1); rc=$?
+  out=$(cd $ISO/verif && VERIF_SEED=${VERIF_SEED:-1} ./check $c ${TIER:-quick} 2>&1); rc=$?
   echo "seed=$sid check=$c rc=$rc violations_printed=$(echo "$out" | grep -c '^VIOLATION') :: $(echo "$out" | tail -1) :: $(echo "$out" | grep -oE 'sig=[^ ]+' | sed 's/sig=//' | sort | uniq -c | tr '\n' ';')"
 done
 git -C $ISO/repo checkout -q -- .
